@@ -1429,6 +1429,7 @@ func TestCorr(t *testing.T) {
 	nCap := 1 + run.N/4000
 	for i := 0; i < nCap; i++ {
 		doCap(t, run, p, r)
+		doBacklogValset(t, run, p, r)
 	}
 	for i := 0; i < nDec; i++ {
 		doDec(run, r)
